@@ -1,6 +1,7 @@
 import Crusta.Proofs.Writers
 import Crusta.Proofs.RoundTrip
 import Crusta.Proofs.StoreRoundTrip
+import Crusta.Gen.WriterFormats
 
 /-! # C14 — written frameworks and answers read back (property theorems) -/
 
@@ -91,5 +92,54 @@ theorem numeral_labels_do_not_read_back (s : Store) (hne : s.liveArgs ≠ []) :
     let atts := s.iterAttacks.map (fun p => (lab p.1, lab p.2))
     readApx (encodeUtf8 (writeApx labels atts)) = .error "syntax error" :=
   store_write_read_usize_rejected s hne
+
+/-- `format!`-style substitution: every `{}` of the format takes the next argument -/
+def fmtSubst : List Nat → List Str → Str
+  | [], _ => []
+  | [c], _ => [c]
+  | a :: b :: rest, as =>
+    if a = 123 ∧ b = 125 then
+      match as with
+      | x :: xs => x ++ fmtSubst rest xs
+      | [] => fmtSubst rest []
+    else a :: fmtSubst (b :: rest) as
+
+theorem strOf_yes : strOf "YES\n" = [89, 69, 83, 10] := by decide
+theorem strOf_no : strOf "NO\n" = [78, 79, 10] := by decide
+theorem strOf_arg : strOf "arg(" = [97, 114, 103, 40] := by decide
+theorem strOf_att : strOf "att(" = [97, 116, 116, 40] := by decide
+theorem strOf_dotnl : strOf ").\n" = [41, 46, 10] := by decide
+
+theorem intercalate_comma : ∀ (a : Str) (t : List Str),
+    intercalate [44] (a :: t) = a ++ t.flatMap (fun l => 44 :: l)
+  | a, [] => by simp [intercalate]
+  | a, b :: t => by
+    simp only [intercalate, List.flatMap_cons]
+    rw [intercalate_comma b t]
+    simp
+
+/-- **the writers' formats are those of the source**: the format strings of every `write!` /
+`writeln!` call of `Iccma23Writer::write_single_extension`, `AspartixWriter::write_single_extension`,
+`AspartixWriter::write_framework`, `write_no_extension` and `write_acceptance_status` are regenerated
+from the source on every run (in source order; the generator insists on their number); the Lean
+writer model produces exactly the text obtained by substituting the labels into these formats -/
+theorem writers_are_the_source_formats :
+    (∀ ext : List Str, ∃ f0 f1 f2, Gen.iccmaExtFormats = [f0, f1, f2] ∧
+      writeExtIccma ext = fmtSubst f0 [] ++ ext.flatMap (fun l => fmtSubst f1 [l]) ++ fmtSubst f2 []) ∧
+    (∀ ext : List Str, ∃ f0 f1 f2 f3, Gen.apxExtFormats = [f0, f1, f2, f3] ∧
+      writeExtApx ext = fmtSubst f0 [] ++
+        (match ext with | [] => [] | a :: t => fmtSubst f1 [a] ++ t.flatMap (fun l => fmtSubst f2 [l])) ++ fmtSubst f3 []) ∧
+    (∀ (labels : List Str) (atts : List (Str × Str)), ∃ g0 g1, Gen.apxFrameworkFormats = [g0, g1] ∧
+      writeApx labels atts = labels.flatMap (fun l => fmtSubst g0 [l]) ++ atts.flatMap (fun p => fmtSubst g1 [p.1, p.2])) ∧
+    (∃ n0, Gen.noExtensionFormats = [n0] ∧ writeNoExt = fmtSubst n0 []) ∧
+    (∀ b : Bool, ∃ s0, Gen.statusFormats = [s0] ∧ writeStatus b = fmtSubst s0 [if b then Gen.statusYes else Gen.statusNo]) := by
+  refine ⟨fun ext => ⟨_, _, _, rfl, ?_⟩, fun ext => ⟨_, _, _, _, rfl, ?_⟩, fun labels atts => ⟨_, _, rfl, ?_⟩, ⟨_, rfl, ?_⟩, fun b => ⟨_, rfl, ?_⟩⟩
+  · simp [writeExtIccma, fmtSubst]
+  · cases ext with
+    | nil => simp [writeExtApx, fmtSubst, intercalate]
+    | cons a t => simp [writeExtApx, fmtSubst, intercalate_comma]
+  · simp [writeApx, fmtSubst, strOf_arg, strOf_att, strOf_dotnl]
+  · simp [writeNoExt, fmtSubst, strOf_no]
+  · cases b <;> simp [writeStatus, fmtSubst, strOf_yes, strOf_no, Gen.statusYes, Gen.statusNo]
 
 end Crusta.C14
